@@ -64,7 +64,9 @@ def jobs(tier):
         hs = A.valid_histories(BASES[base], alpha, n)
         for cfg in cfgs:
             for order in orders:
-                for h in hs:
+                for i, h in enumerate(hs):
+                    if len(h) == 3 and (order != "asc" or (i + len(cfg)) % 7):
+                        continue        # length 3: every 7th history per flavour (fixed list), asc order only
                     k = None if len(h) <= 2 else 2
                     for sc in ([h, []], [[], h]):
                         out.append({"prop": PROP, "cfg": cfg, "order": order, "base": base, "scripts": A.stamp(sc),
